@@ -135,6 +135,10 @@ structure Field where
   factory : Bool
   /-- `@x.default` applied after creation -/
   deco : Bool
+  /-- further applications of `@x.default` after the first one -/
+  decoMore : Nat
+  /-- number of `@x.validator` applications (valid any number of times: validators accumulate) -/
+  valDeco : Nat
   init : Bool
   kwOnly : Bool
   cmp : Flag
@@ -231,7 +235,9 @@ def fieldChecks (f : Field) : List (Bool × Exc) :=
     (f.cmp == .none && !f.effEq && f.effOrder, .valueError),
     (f.hash == .bad, .typeError),
     (f.factory && f.dflt, .valueError),
-    (f.deco && (f.dflt || f.factory), .defaultAlreadySet) ]
+    -- `_CountingAttr.default`: the first application fails iff `_default` is already set by `default=` /
+    -- `factory=`; it sets `_default`, so every further application fails
+    (f.deco && (f.dflt || f.factory || f.decoMore != 0), .defaultAlreadySet) ]
 
 /-- fields are created one after the other while the class body runs -/
 def phase1 (c : Case) : Option Exc := firstFail (c.fields.flatMap fieldChecks)
@@ -317,7 +323,7 @@ def Case.addsHash (c : Case) : Bool :=
 
 def Field.toAttr (f : Field) : Attr :=
   { name := f.name, dflt := f.dflt || f.factory || f.deco, init := f.init, kwOnly := f.kwOnly,
-    onSetattr := f.onSetattr, validator := f.validator, converter := f.converter }
+    onSetattr := f.onSetattr, validator := f.validator || f.valDeco != 0, converter := f.converter }
 
 /-- a `field()` / `attr.ib()` without annotation -/
 def Field.unann (f : Field) : Bool := !f.bare && !f.annotated
